@@ -1,2 +1,173 @@
+/-
+  C12 — DCE/RPC and endpoint-mapper wire codecs are inverse; decoders terminate.
+-/
 import DpapiNg.Model.Rpc
 import DpapiNg.Model.Epm
+import DpapiNg.Proofs.Slices
+import DpapiNg.Properties.C18
+import DpapiNg.Model.RpcClient
+namespace DpapiNg.C12
+open DpapiNg DpapiNg.Rpc DpapiNg.Epm
+
+theorem le_ok (n k : Nat) (h : n < 256 ^ k) : le n k = .ok (Py.toLE n k) := Py.toBytesLE_ok n k h
+
+theorem toLE1 (n : Nat) (h : n < 256) : Py.toLE n 1 = [n] := by
+  simp [Py.toLE]; omega
+
+structure _root_.DpapiNg.Rpc.Header.WF (h : Header) : Prop where
+  version : h.version < 256
+  versionMinor : h.versionMinor < 256
+  packetType : validPacketType h.packetType = true
+  packetFlags : h.packetFlags < 256
+  byteOrder : h.dataRep.byteOrder ≤ 1
+  character : h.dataRep.character ≤ 1
+  floatingPoint : h.dataRep.floatingPoint ≤ 3
+  fragLen : h.fragLen < 65536
+  authLen : h.authLen < 65536
+  callId : h.callId < 4294967296
+
+theorem dataRep_rt (d : DataRep) (h1 : d.byteOrder ≤ 1) (h2 : d.character ≤ 1) (h3 : d.floatingPoint ≤ 3) (rest : Bytes) :
+    ∃ b, dataRepPack d = .ok b ∧ b.length = 4 ∧ dataRepUnpack (b ++ rest) = .ok d := by
+  obtain ⟨bo, ch, fp⟩ := d
+  simp only at h1 h2 h3
+  have hor : bo * 16 ||| ch = bo * 16 + ch := by
+    have : bo = 0 ∨ bo = 1 := by omega
+    have : ch = 0 ∨ ch = 1 := by omega
+    rcases ‹bo = 0 ∨ bo = 1› with rfl | rfl <;> rcases ‹ch = 0 ∨ ch = 1› with rfl | rfl <;> decide
+  unfold dataRepPack
+  simp only [hor]
+  rw [le_ok _ 1 (by omega), le_ok _ 1 (by omega)]
+  simp only [bind, Except.bind, pure, Except.pure, toLE1 _ (show bo * 16 + ch < 256 by omega), toLE1 _ (show fp < 256 by omega)]
+  refine ⟨_, rfl, by simp, ?_⟩
+  unfold dataRepUnpack at_ Py.index
+  simp only [List.cons_append, List.nil_append, List.getElem?_cons_zero, List.getElem?_cons_succ, bind, Except.bind]
+  have a1 : ¬ (bo * 16 + ch) / 16 > 1 := by omega
+  have a2 : ¬ (bo * 16 + ch) % 16 > 1 := by omega
+  have a3 : ¬ fp > 3 := by omega
+  simp only [a1, a2, a3, if_false, pure, Except.pure]
+  have e1 : (bo * 16 + ch) / 16 = bo := by omega
+  have e2 : (bo * 16 + ch) % 16 = ch := by omega
+  simp [e1, e2]
+
+/-- the 16-byte PDU header: decode(encode h) = h, for every well-formed header -/
+theorem header_roundtrip (h : Header) (wf : h.WF) (rest : Bytes) :
+    ∃ b, headerPack h = .ok b ∧ b.length = 16 ∧ headerUnpack (b ++ rest) = .ok h := by
+  obtain ⟨w1, w2, w3, w4, w5, w6, w7, w8, w9, w10⟩ := wf
+  obtain ⟨dr, hdr, hdl, hdu⟩ := dataRep_rt h.dataRep w5 w6 w7 []
+  have hpt : h.packetType < 256 := by
+    unfold validPacketType at w3; simp at w3; omega
+  unfold headerPack
+  rw [le_ok _ 1 (by omega), le_ok _ 1 (by omega), le_ok _ 1 (by omega), le_ok _ 1 (by omega), hdr,
+    le_ok _ 2 (by omega), le_ok _ 2 (by omega), le_ok _ 4 (by omega)]
+  simp only [bind, Except.bind, pure, Except.pure, toLE1 _ w1, toLE1 _ w2, toLE1 _ hpt, toLE1 _ w4]
+  refine ⟨_, rfl, by simp [hdl], ?_⟩
+  generalize hF : Py.toLE h.fragLen 2 = F
+  generalize hA : Py.toLE h.authLen 2 = A
+  generalize hC : Py.toLE h.callId 4 = Cc
+  have lF : F.length = 2 := by rw [← hF]; simp
+  have lA : A.length = 2 := by rw [← hA]; simp
+  have lC : Cc.length = 4 := by rw [← hC]; simp
+  have vF : Py.fromLE F = h.fragLen := by rw [← hF]; exact Py.fromLE_toLE _ 2 (by omega)
+  have vA : Py.fromLE A = h.authLen := by rw [← hA]; exact Py.fromLE_toLE _ 2 (by omega)
+  have vC : Py.fromLE Cc = h.callId := by rw [← hC]; exact Py.fromLE_toLE _ 4 (by omega)
+  unfold headerUnpack at_ Py.index
+  simp only [List.append_assoc, List.cons_append, List.nil_append, List.getElem?_cons_zero, List.getElem?_cons_succ, bind, Except.bind, w3,
+    not_true_eq_false, if_false]
+  have s1 : Py.sliceN (h.version :: h.versionMinor :: h.packetType :: h.packetFlags :: (dr ++ (F ++ (A ++ (Cc ++ rest))))) 4 8 = dr := by
+    slices0 [hdl]
+  have s2 : Py.sliceN (h.version :: h.versionMinor :: h.packetType :: h.packetFlags :: (dr ++ (F ++ (A ++ (Cc ++ rest))))) 8 10 = F := by
+    slices0 [hdl, lF]
+  have s3 : Py.sliceN (h.version :: h.versionMinor :: h.packetType :: h.packetFlags :: (dr ++ (F ++ (A ++ (Cc ++ rest))))) 10 12 = A := by
+    slices0 [hdl, lF, lA]
+  have s4 : Py.sliceN (h.version :: h.versionMinor :: h.packetType :: h.packetFlags :: (dr ++ (F ++ (A ++ (Cc ++ rest))))) 12 16 = Cc := by
+    slices0 [hdl, lF, lA, lC]
+  simp only [s1, s2, s3, s4, vF, vA, vC]
+  simp only [List.append_nil] at hdu
+  simp [hdu, pure, Except.pure]
+
+/-- security trailer: decode(encode t) = t (the auth value is everything after the 8-byte header) -/
+theorem secTrailer_roundtrip (t : SecTrailer) (h1 : validProvider t.type = true) (h2 : validLevel t.level = true)
+    (h3 : t.padLength < 256) (h4 : t.contextId < 4294967296) :
+    ∃ b, secTrailerPack t = .ok b ∧ b.length = 8 + t.authValue.length ∧ secTrailerUnpack b = .ok t := by
+  have ht : t.type < 256 := by unfold validProvider at h1; simp at h1; omega
+  have hl : t.level < 256 := by unfold validLevel at h2; simp at h2; omega
+  unfold secTrailerPack
+  rw [le_ok _ 1 (by omega), le_ok _ 1 (by omega), le_ok _ 1 (by omega), le_ok _ 4 (by omega)]
+  simp only [bind, Except.bind, pure, Except.pure, toLE1 _ ht, toLE1 _ hl, toLE1 _ h3]
+  refine ⟨_, rfl, by simp; omega, ?_⟩
+  generalize hC : Py.toLE t.contextId 4 = Cc
+  have lC : Cc.length = 4 := by rw [← hC]; simp
+  have vC : Py.fromLE Cc = t.contextId := by rw [← hC]; exact Py.fromLE_toLE _ 4 (by omega)
+  unfold secTrailerUnpack at_ Py.index
+  simp only [List.append_assoc, List.cons_append, List.nil_append, List.getElem?_cons_zero, List.getElem?_cons_succ, bind, Except.bind, h1, h2,
+    not_true_eq_false, if_false]
+  have s1 : Py.sliceN (t.type :: t.level :: t.padLength :: 0 :: (Cc ++ t.authValue)) 4 8 = Cc := by slices0 [lC]
+  have s2 : (t.type :: t.level :: t.padLength :: 0 :: (Cc ++ t.authValue)).drop 8 = t.authValue := by slices0 [lC]
+  simp [s1, s2, vC, pure, Except.pure]
+
+/-- syntax identifiers (UUID + version) -/
+theorem syntax_roundtrip (s : SyntaxId) (h1 : s.uuid.length = 16) (h2 : s.version < 65536) (h3 : s.versionMinor < 65536) (rest : Bytes) :
+    ∃ b, syntaxPack s = .ok b ∧ b.length = 20 ∧ syntaxUnpack (b ++ rest) = .ok s := by
+  unfold syntaxPack
+  rw [le_ok _ 2 (by omega), le_ok _ 2 (by omega)]
+  simp only [bind, Except.bind, pure, Except.pure]
+  refine ⟨_, rfl, by simp [h1], ?_⟩
+  generalize hA : Py.toLE s.version 2 = A
+  generalize hB : Py.toLE s.versionMinor 2 = B
+  have lA : A.length = 2 := by rw [← hA]; simp
+  have lB : B.length = 2 := by rw [← hB]; simp
+  have vA : Py.fromLE A = s.version := by rw [← hA]; exact Py.fromLE_toLE _ 2 (by omega)
+  have vB : Py.fromLE B = s.versionMinor := by rw [← hB]; exact Py.fromLE_toLE _ 2 (by omega)
+  unfold syntaxUnpack
+  simp only [List.append_assoc]
+  have s1 : Py.sliceN (s.uuid ++ (A ++ (B ++ rest))) 0 16 = s.uuid := by slices0 [h1]
+  have s2 : Py.sliceN (s.uuid ++ (A ++ (B ++ rest))) 16 18 = A := by slices0 [h1, lA]
+  have s3 : Py.sliceN (s.uuid ++ (A ++ (B ++ rest))) 18 20 = B := by slices0 [h1, lA, lB]
+  simp [s1, s2, s3, uuidOf, h1, vA, vB, bind, Except.bind, pure, Except.pure]
+
+/-- The verification-trailer command loop terminates: its result does not depend on the fuel once the
+    fuel exceeds |view|/4 (every iteration consumes at least the 4-byte command header). -/
+theorem vtCommands_bounded (v : Bytes) (k : Nat) :
+    vtCommands (v.length / 4 + 1 + k) v = vtCommands (v.length / 4 + 1) v := by
+  -- generalise the fuel: any fuel f with 4·f > |v| gives the same answer as f + k
+  have key : ∀ (f : Nat) (v : Bytes), v.length < 4 * f → ∀ k, vtCommands (f + k) v = vtCommands f v := by
+    intro f
+    induction f with
+    | zero => intro v hv; omega
+    | succ f ih =>
+      intro v hv k
+      have e : f + 1 + k = (f + k) + 1 := by omega
+      rw [e]
+      simp only [vtCommands]
+      split
+      · rfl
+      · rename_i hlen
+        simp only [bind, Except.bind]
+        split
+        · rfl
+        · rename_i cn hcn
+          obtain ⟨c, n⟩ := cn
+          simp only
+          split
+          · rfl
+          · have hv' : (v.drop (4 + n)).length < 4 * f := by simp only [List.length_drop]; omega
+            rw [ih _ hv' k]
+  exact key _ v (by omega) k
+
+/-- decoding the tower list of an ept_map reply terminates within |reply|/14 + 1 iterations whatever
+    count is announced (restated from C18) -/
+theorem towersUnpack_bounded (n : Nat) (v : Bytes) (hn : v.length / 14 + 1 ≤ n) :
+    towersUnpack n v = towersUnpack (v.length / 14 + 1) v := C18.towersUnpack_bounded n v hn
+
+/-- NDR64 tower padding used by EptMap / EptMapResult on both sides -/
+theorem tower_padding_aligned (len : Nat) : (12 + len + Py.negMod (len + 4) 8) % 8 = 0 := (C18.tower_padding_aligned len).1
+
+/-- the secondary-address padding of bind_ack: the result list is 4-aligned from the PDU start for every address length -/
+theorem bindAck_padding_aligned (n : Nat) : (26 + n + Py.negMod (2 + n) 4) % 4 = 0 := by
+  unfold Py.negMod; omega
+
+-- non-vacuity: the header the client itself builds is well-formed
+example : (DpapiNg.RpcClient.mkHeader 0 16 1 0).WF := by
+  constructor <;> decide
+
+end DpapiNg.C12
